@@ -444,8 +444,9 @@ void dispatchValue(GenState &gs, Node *c, RegisterIndex tgt) {
         int cs = strToIntSilent(c->right->right->left);
         if (funcname == "__INC__")
           gs.emit(Instruction::Add(tgt, arglocs[0], cs));
-        else
-          gs.emit(Instruction::Add(tgt, arglocs[0], -cs));
+        else  // negate in a wider type: -INT_MIN is not an int (the literal
+              // was already reported as out of range in that case)
+          gs.emit(Instruction::Add(tgt, arglocs[0], (Constant)(-(long)cs)));
         break;
       }
 
